@@ -213,8 +213,14 @@ class Run:
         ev = {'property_id': self.prop, 'tier': self.tier, 'seed': int(self.seed), 'level': level,
               'coverage': cov, 'assumptions': assumptions or [], 'wall_s': round(time.time() - self.t0, 2),
               'violations': len(unlisted)}
-        os.makedirs(os.path.join(ROOT, 'evidence'), exist_ok=True)
-        with open(os.path.join(ROOT, 'evidence', '%s.json' % self.prop), 'w') as fp:
+        # evidence/<id>.json only ever describes the repository itself: runs against a scratch tree (--repo, used to
+        # try seeded changes) and replays write to the git-ignored evidence/scratch/
+        scratch = os.path.realpath(self.repo) != os.path.realpath(os.environ.get('VERIF_REPO_HOME', '/repo')) \
+            or bool(self.replay)
+        ev_dir = os.path.join(ROOT, 'evidence', 'scratch') if scratch else os.path.join(ROOT, 'evidence')
+        ev['repo'] = self.repo
+        os.makedirs(ev_dir, exist_ok=True)
+        with open(os.path.join(ev_dir, '%s.json' % self.prop), 'w') as fp:
             json.dump(ev, fp, indent=1, default=S._default)
 
         for f in known:
